@@ -907,6 +907,8 @@ class Evaluator:
             return r.with_eff(("r" + name, l))
         if l is TOP or r is TOP:
             return TOP
+        if isinstance(l, BoundMethod) or isinstance(r, BoundMethod):
+            return TOP  # arithmetic with an unmodelled attribute of an opaque object
         if isinstance(op, ast.BitOr) and isinstance(l, dict) and isinstance(r, dict):
             d = dict(l)
             d.update(r)
